@@ -49,6 +49,33 @@ theorem wf_get : WellFramed {} (.get (.bytes [107]))
   rw [owed_get]
   exact getReply_unit
 
+/-! ### the administrative operations -/
+/-- `STAT pid 1\r\nEND\r\n` -/
+def statsReply : Bytes := [83, 84, 65, 84, 32, 112, 105, 100, 32, 49, 13, 10] ++ [69, 78, 68, 13, 10]
+
+theorem statsReply_unit : FetchUnit .stats statsReply := by
+  refine .stat _ [83, 84, 65, 84, 32, 112, 105, 100, 32, 49] _ rfl (by decide) (.inl (by with_unfolding_all decide)) ?_
+  exact .final _ [69, 78, 68] (by decide) ⟨by with_unfolding_all decide, fun _ => by with_unfolding_all decide⟩
+
+/-- `stats` answered in two pieces -/
+theorem wf_stats : WellFramed {} (.stats []) [.data [83, 84, 65, 84, 32, 112, 105, 100], .eintr,
+    .data [32, 49, 13, 10, 69, 78, 68, 13, 10]] :=
+  ⟨by simp [clean], by
+    have : owed {} (.stats []) = .fetch .stats := by with_unfolding_all decide
+    rw [this]; exact statsReply_unit⟩
+
+/-- `cache_memlimit 64` answered `OK\r\n` -/
+theorem wf_cacheMemlimit : WellFramed {} (.cacheMemlimit (.int 64)) [.data [79, 75, 13, 10]] :=
+  ⟨by simp [clean], by
+    have : owed {} (.cacheMemlimit (.int 64)) = .fetch (.values false) := by with_unfolding_all decide
+    rw [this]; exact .final _ [79, 75] (by decide) ⟨by with_unfolding_all decide, fun h => by cases h⟩⟩
+
+/-- `shutdown graceful` answered by a line that is not an error line (`OK\r\n`) -/
+theorem wf_shutdown : WellFramed {} (.shutdown true) [.data [79, 75, 13, 10]] :=
+  ⟨by simp [clean], by
+    rw [owed_shutdown]
+    exact ⟨[[79, 75, 13, 10]], rfl, by simp [LineUnit]; exact ⟨[79, 75], by decide⟩, by simp [joinData]⟩⟩
+
 /-- a server state in which key `k` holds `x` -/
 def stateWithK : AbsMap.St := { items := [([107], ⟨0, 0, [120], 1⟩)], casCtr := 1 }
 
